@@ -375,6 +375,9 @@ func (m *Machine) callVsym(caller *frame, fn *ssa.Function, args []Value) (Value
 	case "vsym_ExploreSchedules":
 		m.explore = true
 		return nil, true
+	case "vsym_DelayBound":
+		m.delayBound = int(fr.conc(args[0], "vsym_DelayBound"))
+		return nil, true
 	case "vsym_DaemonsFirst":
 		m.daemonsFirst = true
 		return nil, true
